@@ -68,7 +68,7 @@ class Check(CheckBase):
         def viol(what, **w):
             violations.append({'what': what, 'mechanism': None, 'witness': dict(w, settings=case['settings'])})
 
-        async def run_command(cmd, user, objects, cache, concurrent=3, garble_once=False, new_files=None):
+        async def run_command(cmd, user, objects, cache, concurrent=3, garble_once=False, new_files=None, sre=None):
             """One command on a private copy of the repository.  Returns the observation."""
             store = membackend.Store(case['seed'])
             store.objects = dict(objects)
@@ -88,12 +88,12 @@ class Check(CheckBase):
                 repo = await rep.unlocked(be, u.key, u.password, concurrent=concurrent, cache=cache)
                 with rep.capture() as cap:
                     if cmd == 'list-snapshots':
-                        await repo.list_snapshots()
+                        await repo.list_snapshots(snapshot_regex=sre)
                     elif cmd == 'list-files':
-                        await repo.list_files()
+                        await repo.list_files(snapshot_regex=sre)
                     elif cmd == 'restore':
                         target = tempfile.mkdtemp(prefix='t-', dir=scratch)
-                        res = await repo.restore(path=Path(target))
+                        res = await repo.restore(path=Path(target), snapshot_regex=sre)
                         obs['tree'] = {k: v[0] for k, v in gen.walk_tree(target).items()}
                         obs['files'] = sorted(res.files or [])
                         shutil.rmtree(target, ignore_errors=True)
@@ -246,6 +246,22 @@ class Check(CheckBase):
                             viol(f'{cmd} by {actor} ({kind}) behaves differently on its second run with the cache first seen in state '
                                  f'"{state}": {diff} differ', without=_brief(baseline, diff), with_cache=_brief(again, diff))
                     shutil.rmtree(cache, ignore_errors=True)
+                    # the same with a snapshot filter that is the full name of one snapshot - one that still exists, or one
+                    # another client has deleted meanwhile
+                    if cmd in ('list-snapshots', 'list-files', 'restore') and state in ('stale-after-delete', 'warm', 'warm-by-family-member'):
+                        all_locs = sorted(n for n in objects if n.startswith('snapshots/'))
+                        for loc in (all_locs[0], all_locs[-1]):
+                            full = '^' + loc.rpartition('-')[2] + '$' if r.random() < 0.5 else loc.rpartition('-')[2]
+                            cache, objs = await prepare(state, actor)
+                            baseline = await run_command(cmd, actor, objs, None, conc, sre=full)
+                            got = await run_command(cmd, actor, objs, cache, conc, sre=full)
+                            count('pairs_with_name_filter')
+                            diff = same(baseline, got)
+                            if diff:
+                                viol(f'{cmd} -S <full snapshot name> by {actor} ({kind}) behaves differently with the cache in state "{state}" '
+                                     f'than without a cache: {diff} differ', without=_brief(baseline, diff), with_cache=_brief(got, diff),
+                                     snapshot_still_exists=loc in objs)
+                            shutil.rmtree(cache, ignore_errors=True)
                     if len(violations) > 4:
                         return
             other.close()
